@@ -34,20 +34,25 @@ ASSUMPTIONS = [
 MANIFEST_ENTRY = {
     "technique": "Lean 4 theorems by induction over arbitrary event histories of an executable session model + "
                  "differential tie to real Twisted/asyncio ApplicationSession objects + Spec oracle with ddmin",
-    "text": "Proved in Lean for every history and both scheduling modes: UNSUBSCRIBE is sent iff the removed handler was "
-            "the last of its id; an EVENT for an id whose UNSUBSCRIBE is outstanding is dropped without any effect; an "
-            "EVENT for an id that no SUBSCRIBED ever named raises ProtocolError and changes nothing; a handler is never "
-            "invoked after its unsubscribe() (nor after UNSUBSCRIBED removed it); a raising handler changes neither the "
-            "other invocations nor the session state and nothing leaves onMessage. dispatch_exact (exactly the handlers "
-            "attached at arrival, once each, in subscription order, with the event's args/kwargs and only the own "
-            "details) is stated in full, refuted on two concrete histories (F8 shared kwargs dict, F9 live list "
-            "iteration) and proved as _partial outside those shapes. The model is tied to the code by histories over "
-            "1-4 handlers per id with/without details_arg, any reply order, unsubscribe of first/middle/last handler, "
-            "events racing with unsubscribe, every payload shape, handlers that return/raise/unsubscribe themselves or a "
-            "sibling/subscribe a new handler, on both frameworks.",
+    "text": "Proved in Lean for every state/history and both scheduling modes: unsubscribe_sent_iff_last (UNSUBSCRIBE is handed "
+            "to the transport iff the removed handler was the last of its id; otherwise a completed future with the number "
+            "left), event_during_unsubscribe_dropped (no output, no state change), event_unknown_sub_is_violation and "
+            "event_for_never_held_id_is_violation (after any history in which no SUBSCRIBED named the id), "
+            "no_call_after_unsubscribe (after unsubscribe() no continuation of the history, and no later iteration of the "
+            "same dispatch, invokes that handler), handler_raise_never_escapes. dispatch_exact (exactly the handlers "
+            "attached at arrival, once each, in subscription order, with the event's args/kwargs and only the own details) "
+            "is stated in full against the Spec fan-out, refuted on two concrete histories (F8 shared kwargs dict, F9 live "
+            "list iteration) and proved as dispatch_exact_partial outside those shapes (no synchronous unsubscribe; kwargs "
+            "empty, or no details_arg, or one common details_arg). handler_error_isolated_partial (a raising handler "
+            "changes neither state nor the other invocations) is proved for the Twisted scheduling only. The model is tied "
+            "to the code by histories over 1-4 handlers per id with/without details_arg, every reply order, unsubscribe of "
+            "first/middle/last handler in every order, events racing with unsubscribe, every payload shape, handlers that "
+            "return/raise/unsubscribe themselves or a sibling/subscribe a new handler/call, on both frameworks.",
     "note": "Trusted: Lean kernel; the hand-written model (checked only by the differential run); txaio semantics. "
-            "Decorator-driven subscription is a differential observation, not a theorem. Known findings F8 and F9 are "
-            "reproduced by the check and listed.",
+            "Decorator-driven subscription is a differential observation (part B), not a theorem; error isolation on "
+            "asyncio rests on the differential run. Known findings F8 and F9 are reproduced by the check and listed in "
+            "known_findings.d/C11.jsonl. Spec decision: a handler detached by an earlier handler of the same dispatch is "
+            "not called (no call after unsubscribe wins over 'attached at arrival').",
 }
 
 
